@@ -218,6 +218,10 @@ class ProtoSubroutine:
         self._netqasm_version: Tuple[int, int] = netqasm_version
         self._app_id: Optional[int] = app_id
 
+        # Per command (by identity) the operands it had before templates were filled in
+        # (see `instantiate`); the command is kept along so that its identity stays valid
+        self._templated_operands: Dict[int, Tuple[ICmd, List[T_ProtoOperand]]] = {}
+
         self._commands: List[Union[ICmd, BranchLabel]] = []
         if commands is not None:
             self.commands = commands
@@ -272,16 +276,24 @@ class ProtoSubroutine:
     def instantiate(self, app_id: int, arguments: Dict[str, int]) -> None:
         # All values are looked up first: a call that fails (a value is missing) changes nothing.
         # (Branch labels have no operands to fill in, but they stay part of the subroutine.)
+        # A templated protosubroutine can be filled in again (with other values): the
+        # operands that contain the templates are kept per command.
         filled: List[Tuple[ICmd, List[T_ProtoOperand]]] = []
         for cmd in self.commands:
             if not isinstance(cmd, ICmd):
                 continue
+            templated = self._templated_operands.get(id(cmd))
+            source = templated[1] if templated is not None and arguments else cmd.operands
             ops: List[T_ProtoOperand] = []
-            for op in cmd.operands:
+            has_templates = False
+            for op in source:
                 if isinstance(op, Template):
                     ops.append(arguments[op.name])
+                    has_templates = True
                 else:
                     ops.append(op)
+            if has_templates and templated is None:
+                self._templated_operands[id(cmd)] = (cmd, list(source))
             filled.append((cmd, ops))
 
         for cmd, ops in filled:
